@@ -142,12 +142,14 @@ def position_visited(ctx, tr: Transformer, cls: str, member: str, sub_attr: Opti
     hier = set(ix.mro(cls)) | set(ix.subclasses(cls))
     via = set(via_methods)
     # helpers of the visitor that hand their own argument on to visit() count as visiting it
+    handler_names = {f"visit_{c.name}" for c in ix.classes.values()} | {"visit_default", "visit"}
+    fwd_pos = {}  # helper name -> positions (among non-self parameters) handed on to visit()
     for g in tr.funcs:
-        if g.cls and not g.name.startswith("visit") and len(g.params) >= 2:
-            p0 = g.params[1]
+        if g.cls and g.name not in handler_names and len(g.params) >= 2:
             for n in walk_no_nested(g.node):
-                if isinstance(n, ast.Call) and isinstance(n.func, ast.Attribute) and n.func.attr == "visit" and n.args and isinstance(n.args[0], ast.Name) and n.args[0].id == p0:
+                if isinstance(n, ast.Call) and isinstance(n.func, ast.Attribute) and n.func.attr == "visit" and n.args and isinstance(n.args[0], ast.Name) and n.args[0].id in g.params[1:]:
                     via.add(g.name)
+                    fwd_pos.setdefault(g.name, set()).add(g.params[1:].index(n.args[0].id))
     for f in tr.funcs:
         fl = tr.flows[f.qualname]
         for cs in T.callsites(f):
@@ -158,6 +160,13 @@ def position_visited(ctx, tr: Transformer, cls: str, member: str, sub_attr: Opti
             if not (is_visit or is_via):
                 continue
             arg = cs.node.args[0]
+            if is_via and not is_visit:
+                tn = next((t.name for t in cs.targets if t.name in via), None)
+                pos = sorted(fwd_pos.get(tn, {0}))
+                cand_args = [cs.node.args[i] for i in pos if i < len(cs.node.args)]
+                if not cand_args:
+                    continue
+                arg = cand_args[0]
             if sub_attr is not None:
                 # the argument itself (or what it is defined from) must be <expr>.sub_attr
                 cands = [arg] + [d for n in [arg] if isinstance(n, ast.Name) for d in fl.defs.get(n.id, [])]
@@ -1189,3 +1198,106 @@ def check_macro_relink(ctx, rep, rule: str, modules):
             rep.violation(rule, cons, "the gate handler does not link calls to the new macro table", gh.loc())
     if n == 0:
         rep.ok(rule, "core.algorithm:macro-builders", "no pass constructs Macro objects directly")
+
+
+def check_recursion_guard(ctx, rep, rule, entries, exclude=()):
+    """Every entry point that reaches a recursion cycle of the call graph converts RecursionError above it."""
+    from ..escape import EscapeAnalysis
+    import networkx as nx
+    ix, T = ctx.ix, ctx.typer
+    for q_ in entries:
+        ix.func(q_)
+    ea = EscapeAnalysis(ix, T, exclude_modules=tuple(exclude)).analyse(list(entries))
+    rep.rule(rule, "every entry point that reaches a recursion cycle (the recursive builder, visitors and alias resolution recurse as deep as the program nests) converts RecursionError to JaqalError in a frame above the cycle", floor=1)
+    g = T.graph(weak=False)
+    sub = g.subgraph([q for q in ea.reachable if q in g])
+
+    def converts(fi):
+        """The function's own body, or a decorator applied to it, catches RecursionError and raises."""
+        nodes = [fi.node]
+        for d in getattr(fi.node, "decorator_list", []):
+            name = d.id if isinstance(d, ast.Name) else d.attr if isinstance(d, ast.Attribute) else None
+            if name is None:
+                continue
+            r = ix.resolve_name(fi.module, name) if hasattr(ix, "resolve_name") else None
+            cand = [x for x in ix.functions.values() if x.name == name and x.cls is None]
+            for c in cand:
+                nodes.append(c.node)
+        for nd in nodes:
+            for t in ast.walk(nd):
+                if isinstance(t, ast.Try):
+                    for h in t.handlers:
+                        names = set()
+                        if h.type is None:
+                            names.add("BaseException")
+                        else:
+                            for x in (h.type.elts if isinstance(h.type, ast.Tuple) else [h.type]):
+                                names.add(ast.unparse(x).split(".")[-1])
+                        if names & {"RecursionError", "RuntimeError", "Exception", "BaseException"} and any(isinstance(x, ast.Raise) and x.exc is not None for b in h.body for x in ast.walk(b)):
+                            return True
+        return False
+    covered = {q for q in sub.nodes if q in ix.functions and not isinstance(ix.functions[q].node, ast.Lambda) and converts(ix.functions[q])}
+    cyclic = set()
+    for comp in nx.strongly_connected_components(sub):
+        if len(comp) > 1:
+            cyclic |= comp
+    for q in sub.nodes:
+        if sub.has_edge(q, q):
+            cyclic.add(q)
+    rep.analysed["recursive_functions"] = len(cyclic)
+    rep.analysed["recursion_guarded_frames"] = sorted(short(c) for c in covered)
+    for e in entries:
+        cons = construct_of(ix.functions[e], "recursion-guard")
+        if e in covered:
+            rep.ok(rule, cons, "the entry point itself converts RecursionError", ix.functions[e].loc())
+            continue
+        seen_, stack_ = {e}, [e]
+        hit = None
+        while stack_ and hit is None:
+            q = stack_.pop()
+            if q in cyclic:
+                hit = q
+                break
+            for nxt in sub.successors(q) if q in sub else []:
+                if nxt in covered or nxt in seen_:
+                    continue
+                seen_.add(nxt)
+                stack_.append(nxt)
+        if hit is None:
+            rep.ok(rule, cons, "every recursion cycle reachable from here lies below a frame that converts RecursionError", ix.functions[e].loc())
+        else:
+            rep.violation(rule, cons, f"{short(hit)} recurses as deep as the program nests and nothing between this entry point and it converts RecursionError: 200 nested blocks (or a long alias chain) escape as RecursionError instead of JaqalError", ix.functions[e].loc(), witness="register q[2]\n" + "{ <" * 3 + " ... (200 levels) ... " + "> }" * 3)
+
+
+
+def check_mapfiller_macro_arguments(ctx, rep, rule: str):
+    """MapFiller refuses a whole register alias used as a gate argument; an argument of a MACRO call must be exempt
+    (the parser keeps macro definitions when it expands, so such calls are still visited)."""
+    from ..fieldflow import FuncFlow
+
+    ix, T = ctx.ix, ctx.typer
+    rep.rule(rule, "alias fill-in exempts whole-register arguments of macro calls from its refusal of full aliases (otherwise expand_macro + expand_let_map fails on definitions the expansion preserves while the passes on the plain parse succeed)", floor=1)
+    MOD = "jaqalpaq.core.algorithm.fill_in_map"
+    gh = next((f for f in ix.functions.values() if f.module == MOD and f.name == "visit_GateStatement" and f.cls), None)
+    rh = next((f for f in ix.functions.values() if f.module == MOD and f.name == "visit_Register" and f.cls), None)
+    if gh is None:
+        raise AnalysisError(f"{rule}: MapFiller.visit_GateStatement vanished")
+    cons = construct_of(gh, "macro-call-arguments-exempt")
+    refuses = rh is not None and any(isinstance(n, ast.Raise) for n in walk_no_nested(rh.node))
+    if not refuses:
+        rep.exempt(rule, cons, "alias fill-in does not refuse full aliases at all")
+        return
+    # the functions through which gate arguments reach visit(): the handler itself and its own helpers
+    handler_names = {f"visit_{c.name}" for c in ix.classes.values()} | {"visit_default", "visit"}
+    funcs = [gh] + [t for cs in T.callsites(gh) if cs.kind == "method" for t in cs.targets if t.cls == gh.cls and t.name not in handler_names]
+    ok = False
+    for f in funcs:
+        for st in ast.walk(f.node):
+            if isinstance(st, (ast.If, ast.IfExp)):
+                txt = ast.unparse(st.test)
+                if "Macro" in txt and ("Register" in txt or "fundamental" in txt):
+                    ok = True
+    if ok:
+        rep.ok(rule, cons, "a register argument of a call whose definition is a Macro is passed through unvisited", gh.loc())
+    else:
+        rep.violation(rule, cons, "every gate argument is visited, so `inner a` (a a register alias) inside a preserved macro definition makes fill_in_map raise 'full alias a found in statements': parse_jaqal_string(expand_macro=True, expand_let_map=True) fails although fill_in_map(fill_in_let(expand_macros(plain parse))) succeeds", gh.loc(), witness="map a r[1:3]\nmacro inner x { G x[0] }\nmacro outer { inner a }\nouter")
